@@ -970,7 +970,15 @@ def e11(ctx: Ctx):
                     continue
                 # the test is used to tell "an expression is present / of that kind": every expression class
                 # the operand can be must fall on one side consistently with its being an expression
-                if all(py.is_subclass(k, "AbstractBasicConstruct") and any(py.is_subclass(c, k) for c in expr_classes) for k in ks) and ks == ["AbstractBasicExpression"]:
+                presence = ks == ["AbstractBasicExpression"]
+                if not presence and all(py.is_subclass(k, "AbstractBasicExpression") for k in ks):
+                    # `x if isinstance(x, K) else <default>` (either polarity): K decides presence of the operand
+                    for ie in ast.walk(vm.fn):
+                        if isinstance(ie, ast.IfExp) and any(c is n for c in ast.walk(ie.test)):
+                            br = [ie.body, ie.orelse]
+                            if any(isinstance(b, ast.Name) and b.id == var for b in br) and any(not any(isinstance(x, ast.Name) and x.id == var for x in ast.walk(b)) for b in br):
+                                presence = True
+                if all(py.is_subclass(k, "AbstractBasicConstruct") and any(py.is_subclass(c, k) for c in expr_classes) for k in ks) and presence:
                     bad = sorted(c for c in cs if c in expr_classes and not any(py.is_subclass(c, k) for k in ks))
                     ctx.ob(
                         f"{name}:{var}:isinstance({','.join(ks)})",
@@ -1006,7 +1014,15 @@ def e11(ctx: Ctx):
             if isinstance(a, Obj) and a.cls in py.classes and py.is_subclass(a.cls, "AbstractBasicConstruct"):
                 s = I.getattr(a, "is_str_expr", a.cls)
                 for y in alts_of(s):
-                    if isinstance(y, Const) and isinstance(y.value, bool) and y.value != want_str:
+                    yv = y.value if isinstance(y, Const) and isinstance(y.value, bool) else None
+                    if yv is None and getattr(y, "desc", None):
+                        # the kind is copied from an operand: the operand has the kind of its grammar family
+                        mo = re.fullmatch(r"Operand\((\w+)@[^)]*\)\.is_str_expr", y.desc)
+                        if mo and mo.group(1) in str_rules:
+                            yv = True
+                        elif mo and mo.group(1) in num_rules:
+                            yv = False
+                    if yv is not None and yv != want_str:
                         (culprits_str if want_str else culprits_num).setdefault(a.cls, a.line)
     all_cls = sorted({a.cls for r in (num_rules | str_rules) if r in vals for a in alts_of(vals[r]) if isinstance(a, Obj) and a.cls in py.classes})
     for c in all_cls:
